@@ -80,6 +80,8 @@ def describe(run, l, clause, S):
     elif ev.get("e") in ("Crash", "RunCrash"):
         detail = {k: ev.get(k) for k in ("where", "exc", "msg")}
         detail["run_crash"] = run.get("crash", "")
+    elif ev.get("e") == "FreshCheck":
+        detail = {"only_in_fix_run_report": [[S.text(x[0]), x[1], S.text(x[2])] for x in ev.get("onlyFix", [])], "only_in_fresh_report": [[S.text(x[0]), x[1], S.text(x[2])] for x in ev.get("onlyFresh", [])]}
     elif ev.get("e") == "Reparse":
         detail = {"ok": ev.get("ok"), "msg": ev.get("msg")}
     elif ev.get("e") == "Analyze":
